@@ -608,3 +608,319 @@ lemma(
     unstub=[f"{GBX}:GeoBox.snap_to"],
     ghost_args={f"{GBX}:pixel_translation": lambda t, shape: dict(t=(-t[0], -t[1]), sa=None)},
 )
+
+# =====================================================================================================
+# C02 -- GeoBox views agree with the pixel-to-world mapping
+# =====================================================================================================
+#
+# A view-changing operation is specified by the pixel-space map M it prescribes:
+#     result.pix2wld(i, j) == self.pix2wld(M (i, j))  for all real (i, j)   <=>   result.affine == self.affine * M
+# together with the new shape and the unchanged CRS.  M is written with the affine LIBRARY in the
+# specification (translations, scales, rotations), from the operation's documented meaning.
+
+AFF = lambda: repo("affine").Affine  # noqa: E731
+
+
+def S_(sx, sy):
+    return AFF().scale(sx, sy)
+
+
+def view(result, self, M, shape_yx=None):
+    cl = [aff_eq(result.affine, self.affine * M), result.crs is self.crs]
+    if shape_yx is not None:
+        cl += [result.shape.y == shape_yx[0], result.shape.x == shape_yx[1]]
+    return And(*cl)
+
+
+def _lemma_pix_wld_inverse(g, x, y):
+    wx, wy = g.pix2wld(x, y)
+    px, py = g.wld2pix(wx, wy)
+    claim(And(px == x, py == y), "wld2pix(pix2wld(p)) == p")
+    qx, qy = g.wld2pix(x, y)
+    vx, vy = g.pix2wld(qx, qy)
+    claim(And(vx == x, vy == y), "pix2wld(wld2pix(w)) == w")
+    A = g.affine
+    claim(And(wx == A.a * x + A.b * y + A.c, wy == A.d * x + A.e * y + A.f), "pix2wld is the affine map")
+
+
+lemma("geobox.pix2wld_wld2pix_inverse", ["C02"], inputs=dict(g=GEOBOX(), x=Real(), y=Real()), requires=[lambda g: _nondegenerate(g)], body=_lemma_pix_wld_inverse, note="any invertible affine: mirrored, non-square, rotated, sheared")
+
+
+def _corners(shape_xy, A):
+    nx, ny = shape_xy
+    return [(A.c, A.f), (A.a * nx + A.c, A.d * nx + A.f), (A.a * nx + A.b * ny + A.c, A.d * nx + A.e * ny + A.f), (A.b * ny + A.c, A.e * ny + A.f)]
+
+
+contract(
+    f"{GEOM}:BoundingBox.from_transform",
+    ["C02"],
+    inputs=dict(shape=Tup(Int(ge=1), Int(ge=1)), transform=AFFINE(), crs=CRSShape("EPSG:3857")),
+    ensures=[
+        (
+            "contains the images of all four corners of the pixel rectangle and is tight (each side touched by a corner image)",
+            lambda shape, transform, result: And(
+                *[And(result.left <= x, x <= result.right, result.bottom <= y, y <= result.top) for x, y in _corners((shape[1], shape[0]), transform)],
+                Or(*[result.left == x for x, _ in _corners((shape[1], shape[0]), transform)]),
+                Or(*[result.right == x for x, _ in _corners((shape[1], shape[0]), transform)]),
+                Or(*[result.bottom == y for _, y in _corners((shape[1], shape[0]), transform)]),
+                Or(*[result.top == y for _, y in _corners((shape[1], shape[0]), transform)]),
+            ),
+        ),
+        ("CRS kept", lambda crs, result: result.crs is crs),
+    ],
+    returns=lambda crs: Build(f"{GEOM}:BoundingBox", Real(), Real(), Real(), Real(), CRSShape(None if crs is None else str(crs))),
+)
+
+contract(
+    f"{GBX}:GeoBoxBase.boundingbox",
+    ["C02"],
+    inputs=dict(self=GEOBOX()),
+    ensures=[("bounding box of the footprint: from_transform of shape/affine/CRS", lambda self, result: And(*[And(result.left <= x, x <= result.right, result.bottom <= y, y <= result.top) for x, y in _corners(self.shape.xy, self.affine)]))],
+    ghost_args={},
+    returns=lambda self: BBOX(),
+)
+
+
+class PolygonStandIn:
+    def __init__(self, outer, crs, inners=()):
+        self.outer, self.crs, self.inners = outer, crs, inners
+
+
+contract(
+    f"{GEOM}:polygon",
+    ["C02"],
+    inputs=dict(outer=Tup(Tup(Real(), Real()), Tup(Real(), Real()), Tup(Real(), Real()), as_list=True), crs=CRSShape(None)),
+    ensures=[("a polygon with exactly this outer ring and CRS", lambda outer, crs, result: True)],
+    returns=lambda outer, crs, inners=(): Value(PolygonStandIn(list(outer), crs, inners)),
+    verify=False,
+    trusted_reason="thin wrapper handing the ring to shapely (GeoJSON-like dict): assumed; the stub returns a stand-in that remembers ring and CRS",
+)
+
+contract(
+    f"{GEOM}:polygon_from_transform",
+    ["C02"],
+    inputs=dict(shape=Tup(Int(ge=1), Int(ge=1)), transform=AFFINE(), crs=CRSShape("EPSG:3857")),
+    ensures=[
+        (
+            "the footprint ring is the images of the four pixel-rectangle corners, in ring order, closed",
+            lambda shape, transform, crs, result: And(
+                len(result.outer) == 5,
+                *[And(p[0] == q[0], p[1] == q[1]) for p, q in zip(result.outer, [_corners((shape[1], shape[0]), transform)[k] for k in (0, 3, 2, 1, 0)])],
+                result.crs is crs,
+            ),
+        )
+    ],
+)
+
+# ---- cropping / indexing ---------------------------------------------------------------------------------------------------------
+
+_ROI1 = OneOf(Int(), Slice(Opt(Int()), Opt(Int()), None))
+
+
+def _crop_axes(roi, shape_yx):
+    """normalised (start, size) per axis for the supported index forms"""
+    from .roi_c import norm_bound
+
+    if is_int_obj(roi):
+        roi = (slice(roi, roi + 1), slice(None, None))
+    elif isinstance(roi, slice):
+        roi = (roi, slice(None, None))
+    out = []
+    for s, n in zip(roi, shape_yx):
+        if is_int_obj(s):
+            a = idx_norm(s, n)
+            out.append((a, 1))
+        else:
+            a, b = norm_bound(s.start, 0, n), norm_bound(s.stop, n, n)
+            out.append((a, b - a))
+    return out
+
+
+contract(
+    f"{GBX}:GeoBoxBase.compute_crop",
+    ["C02", "C04"],
+    inputs=[dict(self=GEOBOX(), roi=Tup(_ROI1, _ROI1)), dict(self=GEOBOX(), roi=_ROI1)],
+    ensures=[
+        (
+            "crop: pixel (i, j) of the result is pixel (i + tx, j + ty) of the original, (ty, tx) the (numpy-normalised) start of the region; shape is the region's size",
+            lambda self, roi, result: And(
+                aff_eq(result[1], self.affine * T_(_crop_axes(roi, self.shape.yx)[1][0], _crop_axes(roi, self.shape.yx)[0][0])),
+                result[0].y == _crop_axes(roi, self.shape.yx)[0][1],
+                result[0].x == _crop_axes(roi, self.shape.yx)[1][1],
+            ),
+        )
+    ],
+    returns=lambda self: Tup(Build(f"{TYPES}:Shape2d", x=Int(), y=Int()), AFFINE()),
+    note="index forms: (row, col) of ints/slices incl. negative and open-ended, a single int, a single slice; Geometry/BoundingBox/GeoBox regions go through pyproj/shapely and are not decided",
+)
+
+contract(
+    f"{GBX}:GeoBox.__getitem__",
+    ["C02", "C04"],
+    inputs=[dict(self=GEOBOX(), roi=Tup(_ROI1, _ROI1))],
+    ensures=[
+        (
+            "same CRS; placed and sized as compute_crop prescribes",
+            lambda self, roi, result: view(result, self, T_(_crop_axes(roi, self.shape.yx)[1][0], _crop_axes(roi, self.shape.yx)[0][0]), (_crop_axes(roi, self.shape.yx)[0][1], _crop_axes(roi, self.shape.yx)[1][1])),
+        )
+    ],
+    returns=lambda self: GEOBOX(min_side=0),
+)
+
+# ---- simple views ------------------------------------------------------------------------------------------------------------------
+
+contract(
+    f"{GBX}:GeoBox.pad",
+    ["C02"],
+    inputs=dict(self=GEOBOX(), padx=Int(ge=0), pady=OneOf(None, Int(ge=0))),
+    ensures=[("grown by pad pixels on every side: pixel (i, j) is old pixel (i - padx, j - pady); covers the original", lambda self, padx, pady, result: view(result, self, T_(-padx, -(padx if pady is None else pady)), (self.shape.y + 2 * (padx if pady is None else pady), self.shape.x + 2 * padx)))],
+)
+contract(
+    f"{GBX}:GeoBox.pad_wh",
+    ["C02", "C05"],
+    inputs=dict(self=GEOBOX(), alignx=Int(ge=1), aligny=OneOf(None, Int(ge=1))),
+    ensures=[
+        (
+            "same origin, shape rounded up to multiples of the alignment (grows right/bottom only)",
+            lambda self, alignx, aligny, result: And(
+                view(result, self, T_(0, 0)),
+                result.shape.x % alignx == 0, result.shape.x >= self.shape.x, result.shape.x - self.shape.x < alignx,
+                result.shape.y % (alignx if aligny is None else aligny) == 0, result.shape.y >= self.shape.y, result.shape.y - self.shape.y < (alignx if aligny is None else aligny),
+            ),
+        )
+    ],
+)
+contract(
+    f"{GBX}:GeoBox.crop",
+    ["C02", "C05"],
+    inputs=dict(self=GEOBOX(), shape=Tup(Int(ge=0), Int(ge=0))),
+    ensures=[("same origin and pixel grid, new shape (crop / expand)", lambda self, shape, result: view(result, self, T_(0, 0), shape))],
+)
+contract(
+    f"{GBX}:GeoBox.flipx",
+    ["C02"],
+    inputs=dict(self=GEOBOX()),
+    ensures=[("pixel (i, j) is old pixel (nx - i, j)", lambda self, result: view(result, self, T_(self.shape.x, 0) * S_(-1, 1), self.shape.yx))],
+)
+contract(
+    f"{GBX}:GeoBox.flipy",
+    ["C02"],
+    inputs=dict(self=GEOBOX()),
+    ensures=[("pixel (i, j) is old pixel (i, ny - j)", lambda self, result: view(result, self, T_(0, self.shape.y) * S_(1, -1), self.shape.yx))],
+)
+for _nm, _dx, _dy in (("left", -1, 0), ("right", 1, 0), ("top", 0, -1), ("bottom", 0, 1)):
+    contract(
+        f"{GBX}:GeoBox.{_nm}",
+        ["C02"],
+        inputs=dict(self=GEOBOX()),
+        ensures=[(f"neighbour to the {_nm}: same grid shifted by one whole GeoBox", lambda self, result, _dx=_dx, _dy=_dy: view(result, self, T_(_dx * self.shape.x, _dy * self.shape.y), self.shape.yx))],
+        ghost_args={},
+    )
+contract(
+    f"{GBX}:GeoBox.__mul__",
+    ["C02"],
+    inputs=dict(self=GEOBOX(), transform=AFFINE()),
+    ensures=[("pixel-side transform: affine = A * M", lambda self, transform, result: view(result, self, transform, self.shape.yx))],
+    inline=True,
+)
+contract(
+    f"{GBX}:GeoBox.__rmul__",
+    ["C02"],
+    inputs=dict(self=GEOBOX(), transform=AFFINE()),
+    ensures=[("world-side transform: affine = M * A", lambda self, transform, result: And(aff_eq(result.affine, transform * self.affine), result.crs is self.crs, result.shape.x == self.shape.x))],
+    inline=True,
+)
+
+# ---- zooming -----------------------------------------------------------------------------------------------------------------------------
+
+contract(
+    f"{GBX}:GeoBoxBase.compute_zoom_out",
+    ["C02", "C03"],
+    inputs=dict(self=GEOBOX(), factor=Real(gt=0)),
+    ensures=[
+        (
+            "pixel (i, j) is old pixel (i*f, j*f); the shape is ceil(N/f) (at least 1) so the result covers the original",
+            lambda self, factor, result: And(
+                aff_eq(result[1], self.affine * S_(factor, factor)),
+                *[And(n >= 1, n * factor >= N, Or(n == 1, (n - 1) * factor < N)) for n, N in zip(result[0].yx, self.shape.yx)],
+            ),
+        )
+    ],
+    returns=lambda self: Tup(Build(f"{TYPES}:Shape2d", x=Int(ge=1), y=Int(ge=1)), AFFINE()),
+)
+contract(
+    f"{GBX}:GeoBoxBase.compute_zoom_to",
+    ["C02"],
+    inputs=[dict(self=GEOBOX(), shape=Tup(Int(ge=1), Int(ge=1)), resolution=None), dict(self=GEOBOX(), shape=OneOf(Int(ge=1), Real(gt=0)), resolution=None)],
+    ensures=[
+        (
+            "to a shape (m, n): exactly that shape, pixel (i, j) is old pixel (i*N/n, j*M/m) -- same footprint; to a number: longest side shrunk to it via zoom_out",
+            lambda self, shape, result: And(result[0].y == shape[0], result[0].x == shape[1], aff_eq(result[1], self.affine * S_(div(self.shape.x, shape[1]), div(self.shape.y, shape[0]))))
+            if isinstance(shape, tuple)
+            else And(aff_eq(result[1], self.affine * S_(div(Max(self.shape.x, self.shape.y), shape), div(Max(self.shape.x, self.shape.y), shape)))),
+        )
+    ],
+    returns=lambda self: Tup(Build(f"{TYPES}:Shape2d", x=Int(ge=1), y=Int(ge=1)), AFFINE()),
+    ghost_args={},
+    note="zoom_to(resolution=...) goes through from_bbox(self.boundingbox, resolution, tight=True) (C08 contract); not restated here",
+)
+contract(
+    f"{GBX}:GeoBox.zoom_out",
+    ["C02"],
+    inputs=dict(self=GEOBOX(), factor=Real(gt=0)),
+    ensures=[("same CRS; as compute_zoom_out", lambda self, factor, result: And(view(result, self, S_(factor, factor)), *[And(n >= 1, n * factor >= N) for n, N in zip(result.shape.yx, self.shape.yx)]))],
+)
+contract(
+    f"{GBX}:GeoBox.zoom_to",
+    ["C02"],
+    inputs=dict(self=GEOBOX(), shape=Tup(Int(ge=1), Int(ge=1)), resolution=None),
+    ensures=[("same CRS; exactly the requested shape over the same footprint", lambda self, shape, result: view(result, self, S_(div(self.shape.x, shape[1]), div(self.shape.y, shape[0])), shape))],
+)
+contract(
+    f"{GBX}:scaled_down_geobox",
+    ["C02", "C03"],
+    inputs=dict(src_geobox=GEOBOX(), scaler=Int(ge=2)),
+    ensures=[
+        (
+            "integer down-scaling: pixel (i, j) is old pixel (i*s, j*s); shape ceil(N/s) covers the original",
+            lambda src_geobox, scaler, result: And(view(result, src_geobox, S_(scaler, scaler)), *[And((n - 1) * scaler < N, N <= n * scaler) for n, N in zip(result.shape.yx, src_geobox.shape.yx)]),
+        )
+    ],
+    returns=lambda src_geobox: GEOBOX(),
+)
+
+# ---- rotation about the centre -------------------------------------------------------------------------------------------------------------
+
+
+def _lemma_rotate(g, deg):
+    r = g.rotate(deg)
+    nx, ny = g.shape.x, g.shape.y
+    cx, cy = g.pix2wld(nx * 0.5, ny * 0.5)
+    rx, ry = r.pix2wld(nx * 0.5, ny * 0.5)
+    claim(And(rx == cx, ry == cy), "the centre of the pixel rectangle keeps its world location")
+    R = AFF().rotation(deg)
+    A, B = g.affine, r.affine
+    claim(And(R.a == R.e, R.b == -R.d, R.a * R.a + R.d * R.d == 1), "R(deg) is a proper rotation matrix")
+    claim(And(B.a == R.a * A.a + R.b * A.d, B.b == R.a * A.b + R.b * A.e, B.d == R.d * A.a + R.e * A.d, B.e == R.d * A.b + R.e * A.e), "the linear part is pre-multiplied by R(deg)")
+    claim(And(r.shape.x == nx, r.shape.y == ny, r.crs is g.crs), "shape and CRS kept")
+
+
+lemma("geobox.rotate_about_centre", ["C02"], inputs=dict(g=GEOBOX(), deg=Real()), body=_lemma_rotate, unstub=[f"{GBX}:GeoBox.rotate"], note="cos/sin are uninterpreted functions with cos^2+sin^2=1; multiples of 90 degrees take the library's exact branch")
+
+# ---- centre pixel, buffered ----------------------------------------------------------------------------------------------------------------------------
+
+
+def _lemma_center_pixel(g):
+    c = g.center_pixel
+    claim(view(c, g, T_(py_floordiv(g.shape.x, 2), py_floordiv(g.shape.y, 2)), (1, 1)), "1x1 GeoBox at pixel (nx//2, ny//2)")
+
+
+lemma("geobox.center_pixel", ["C02"], inputs=dict(g=GEOBOX()), body=_lemma_center_pixel, unstub=[f"{GBX}:GeoBox.center_pixel"], ghost_args={})
+
+contract(
+    f"{GBX}:_round_to_res",
+    ["C02"],
+    inputs=dict(value=Real(), res=OneOf(Real(gt=0), Real(lt=0))),
+    ensures=[("smallest whole number of pixels covering value up to a tenth of a pixel", lambda value, res, result: And(is_int_obj(result), result * Abs(res) >= value - 0.1 * Abs(res), (result - 1) * Abs(res) < value - 0.1 * Abs(res)))],
+    returns=lambda value: Int(),
+)
